@@ -200,10 +200,14 @@ def spellings_of(S: int):
         out += [("td64m", np.timedelta64(S // 60, "m")), ("list", [S // 60, "m"]), ("timedelta", datetime.timedelta(minutes=S // 60))]
     if S % 3600 == 0:
         out += [("td64h", np.timedelta64(S // 3600, "h")), ("list", [S // 3600, "h"])]
-    for h in range(0, S // 3600 + 1):
-        for m in range(0, (S - 3600 * h) // 60 + 1):
+    hs_ = range(0, S // 3600 + 1) if S < 20000 else sorted({0, 1, S // 3600, max(S // 3600 - 1, 0), S // 7200})
+    for h in hs_:
+        ms_ = range(0, (S - 3600 * h) // 60 + 1) if S < 20000 else sorted({0, 59, 60, (S - 3600 * h) // 60, (S - 3600 * h) // 120})
+        for m in ms_:
+            if 3600 * h + 60 * m > S:
+                continue
             z = S - 3600 * h - 60 * m
-            if m > 130:
+            if m > 130 and S < 20000:
                 continue
             for hs in ([""] if h == 0 else []) + [f"{h}H", f"0{h}H"]:
                 for ms in ([""] if m == 0 else []) + [f"{m}M", f"00{m}M"]:
@@ -219,6 +223,7 @@ def run_spellings(case):
     viols, n, nt = [], 0, 0
     kinds = set()
     values = list(range(0, 130)) + list(range(3540, case["maxsec"] + 1, 7)) + [3600, 3660, 3661, 7200, 5400, 600, 900]
+    values += [86399, 86400, 86401, 90061, 100000, 129600, 172800, 360000, 604800, 1000000]  # a day and more (no implicit wrap at 24 h)
     for S in values:
         sp = spellings_of(S)
         for kind, x in sp:
@@ -234,7 +239,7 @@ def run_spellings(case):
         if len(sp) > 4:
             nt += 1
         # duration2iso round trip inside one day
-        for d in (np.timedelta64(S, "s"), datetime.timedelta(seconds=S)):
+        for d in (np.timedelta64(S, "s"), datetime.timedelta(seconds=S)) if S < 86400 else ():
             n += 1
             try:
                 txt = duration2iso(d)
